@@ -17,7 +17,7 @@ PLANS = {
     "C18": {"profiles": ["c18_yson"], "quick": 1200, "thorough": 80000},
     "C10": {"profiles": ["c10_compaction"], "quick": 3000, "thorough": 60000},
     "C11": {"profiles": ["c11_lifecycle"], "quick": 8000, "thorough": 200000},
-    "C19": {"profiles": ["c19_matrix"], "quick": 6400, "thorough": 12800, "enumerate": True},
+    "C19": {"profiles": ["c19_matrix"], "quick": 12800, "thorough": 25600, "enumerate": True},
     "C20": {"profiles": ["c20_change_cache", "c20_snapshot_cache"], "quick": 6000, "thorough": 120000},
     "C14": {"profiles": ["c14_undo_exact", "c14_undo_approx"], "quick": 5000, "thorough": 100000},
     "C12": {"profiles": ["c12_presence", "c12_presenceless"], "quick": 1000, "thorough": 100000},
@@ -141,7 +141,7 @@ META = {
     "C13": {"level": "An intruder inside ordinary editing sessions: project 0 (victim, owner user0) runs a C01-style session with real clients, snapshots and automatic revisions; project 1 belongs to another user. Between the victim's steps the intruder calls a procedure of YorkieService / AdminService / ClusterService - the list is read from the generated service descriptors at run time, requests are filled field by field (by field name) with the victim's real client id, document id, document key, project id/name, revision id, or with its own client/document plus one identifier of the victim - under every credential it can present {none, garbage, its own project key, its own user token, its own project secret, its public key as secret; none/wrong cluster secret}. Oracles per call: (1) every stored row of every memdb table that is not the intruder's own (project, user, clients, documents and their rows) is byte-identical before and after; (2) a call that names something of the victim or presents no valid credential is refused, with not-found / unauthenticated / permission-denied (failed-precondition and invalid-argument only if the twin call gets the same); (3) existence is not revealed: the twin call naming identifiers that exist nowhere gets the same code; (4) no answer carries a value of the victim's documents; (5) no stream is opened, no handler panics, every call returns; plus the C01 oracles on the victim's session (identical document keys in two projects are different documents).", "note": _common + "; which principal an admin handler reads (project or user) is extracted from admin_server.go at build time; the auth webhook is not configured; a credential of the wrong kind makes admin handlers panic on the pinned tree (known finding); account enumeration through LogIn/ChangePassword (unauthenticated vs not-found) is outside the property (it speaks of clients and documents) and not judged"},
     "C16": {"level": "Step-level engine: after a sequential set-up all clients talk to the real server AT THE SAME TIME (1-3 syncs each, push-only syncs, detach+re-attach, explicit deactivation, duplicated requests with both copies in flight) together with admin compaction, a SERVER CRASH as one more scheduling decision (the process dies at a yield point: requests in flight are lost, what was stored survives, the server restarts, clients retry), the housekeeping deactivation body after a 25 h silence and the server's own background goroutines (snapshot writer). Every task runs on its own goroutine; exactly one runs at a time and gives control back at every storage call, every pkg/locker operation and every spin on an instrumented mutex (build overlay, nothing written to /repo); a seeded scheduler picks who continues. The scheduler keeps a model of the named RW locks (writer, readers, announced writers = Go's writer preference) and only resumes a task whose lock request the model admits: a state with unfinished tasks and nobody admissible is a DEADLOCK, reported with the wait-for relation; every acquisition is compared with the documented order doc -> pull -> attachment -> push (lock-order oracle); every request must return; afterwards the C01/C04/C05 oracles (convergence incl. server rebuild, conservation, log shape, clone == root, no un-faulted failure) are evaluated. A death of the process by the Go runtime (fatal error: unlock of unlocked mutex, concurrent map access, panic on a server goroutine) is reproduced alone, minimised out of process and reported as a violation.", "note": _common + "; NOT covered: the race-detector half of the property (the scheduler's hand-off orders all memory accesses, so unsynchronised accesses between two yield points are invisible - seeded change C16-1 is out of reach), watch streams inside the same sections (C17 drives pubsub separately)"},
     "C17": {"level": "The real server/backend/pubsub package (PubSub, Subscriptions, BatchPublisher, cmap) under the step-level engine: up to 4 subscribers and 3 publishers on one document key Subscribe / Publish / Unsubscribe concurrently; the package's mutexes are rewritten in the build overlay into TryLock-spin-yield, so a seeded scheduler decides every interleaving at every mutex acquisition; simulated time (batch window, publish time-out) passes only when the scheduler says so. Consumers are prompt (drain after every step) or stalled. Oracles over the recorded history (events stamped with the scheduler's step number): a subscriber whose Subscribe returned before Publish was invoked and whose Unsubscribe was invoked after Publish returned - and that drains - receives an event of that publisher or a closed channel within a bounded linger (8 simulated seconds); nothing is received after Unsubscribe returned; the subscription map is empty once all have unsubscribed; no panic (send on closed channel) - also on the publisher's own goroutine (process death is reproduced and reported).", "note": "the pubsub package runs alone (no RPC layer, no WatchDocument stream); channel operations are not yield points (only mutex acquisitions, timers and task starts are); sampling, not proof"},
-    "C19": {"level": "The five pair matrices (ranges x op1 x op2) are extracted at build time from test/complex/tree_concurrency_test.go of the CURRENT tree (data and op.run methods are upstream's, the runner is the simulator): every one of the 1592 cells x both sync orders x both assignments of the two operations to the two clients (equal lamports: the author's id decides which operation is later) is one simulated run with two change-fed clients and a third client fed by snapshot that edits on top of it; oracles: ToXML and Marshal equal on all three and on the server's rebuild, clone == root, no step fails. The quick tier already sweeps the whole matrix (6368 runs, ~40 s).", "note": _common + "; exhaustive over the declared matrix, exploration beyond it is C01's job", "technique": "deterministic simulation, exhaustive sweep of a finite matrix of two-client schedules"},
+    "C19": {"level": "The five pair matrices (ranges x op1 x op2) are extracted at build time from test/complex/tree_concurrency_test.go of the CURRENT tree (data and op.run methods are upstream's, the runner is the simulator): every one of the 1592 cells x both sync orders x both assignments of the two operations to the two clients (equal lamports: the author's id decides which operation is later) - and all of that a second time with the merge helper upstream's test was meant to have (since Go 1.22 upstream's parseSimpleXML makes every 'merge' of the matrix a no-op; the first sweep keeps upstream's behaviour, the second one really merges) - is one simulated run with two change-fed clients and a third client fed by snapshot that edits on top of it; oracles: ToXML and Marshal equal on all three and on the server's rebuild, clone == root, no step fails. The quick tier already sweeps the whole matrix (12736 runs, ~40 s).", "note": _common + "; exhaustive over the declared matrix, exploration beyond it is C01's job", "technique": "deterministic simulation, exhaustive sweep of a finite matrix of two-client schedules"},
     "C20": {"level": "(a) the real mongo.ChangeStore is driven through the call protocol of mongo/client.go (ReplaceOrInsert+ExpandRange by writers, EnsureChanges+ChangesInRange by readers, eviction, fetch errors, changes stored by other nodes) against a ground-truth table with presence-only holes: served range == table range, the fetcher is never asked for a covered sequence number; (b) C02-style sessions with frequent rebuild steps: BuildInternalDocForServerSeq(s) at the head and at earlier points with the cache as it is == after Purge() == replicas holding the same vector, interleaved with pushes, purges, tiny caches, restarts.", "note": _common + "; the Mongo collection and the glue in mongo/client.go are a stub (a change there is not seen); pkg/cache LRU expiry is not covered"},
     "C18": {"level": "At sync points and at quiescence every replica's document goes through FromCRDT -> Marshal -> Unmarshal -> SetYSON into a fresh Document -> FromCRDT; generated YSON literals of every element type enter through SetYSONElement/WithInitialRoot; a revision created mid-run is restored at the end and must give every replica the recorded content; after all clients detached the real compaction must succeed and keep the content.", "note": _common},
 }
